@@ -31,6 +31,16 @@ CHECKS = {
               "(capped at 400k per worker, so counted conservatively)"),
         assumptions=STREAM_ASSUME,
     ),
+    "C02": dict(
+        bins=["c02"], replay_bin="c02", campaigns=lambda tier, seed: [dict(name="c02", bin="c02", shards=16, timeout=3000)], level="exploration",
+        rule=("rapidcheck well-formed exchanges (same generator as C03) x 10 personalities, delivered whole and under 6 random chunkings; every reported field of every "
+              "transaction (method, URI, protocol, header names/values in table order with folded lines joined and repeated fields merged with ', ', trailers, host/port, "
+              "cookies, Basic credentials, query parameters, status/reason, body bytes both ways, case-insensitive lookups) compared with the expectation derived from the "
+              "AST; every generated value carries a message-unique tag. Non-trivial = exchange with >=2 of {folded header, repeated header, trailer, >=2 pipelined "
+              "messages, cookies, credentials, absolute-form target, bare-LF message}; distinct by wire bytes"),
+        assumptions=["host names are compared case-insensitively (libhtp lower-cases them on some paths only)",
+                     "generator domain restrictions: see harness/httpgen.hpp header comment"],
+    ),
     "C03": dict(
         bins=["c03"], replay_bin="c03", campaigns=lambda tier, seed: [dict(name="c03", bin="c03", shards=16, timeout=3000)], level="exploration",
         rule=("rapidcheck well-formed exchanges (1..4 pipelined request/response pairs; methods, origin/absolute targets, 0..k headers with optional whitespace, obs-fold "
